@@ -39,22 +39,27 @@ extern "C" long masa_verif_live(int precision) __attribute__((weak));
 static long g_heap_bytes = 0, g_heap_blocks = 0;
 #ifdef DRV_ALLOC
 static int g_fill = 0xCD;
+// every block carries a 16-byte header: requested size and whether it was allocated inside a library call.
+// heap/blocks count only memory allocated by the library (inside a public call) and not yet released, so the
+// numbers do not depend on the driver's own strings and buffers.
+static bool g_in_lib = false;
 static void* drv_alloc(size_t n)
 {
-  void* p = malloc(n ? n : 1);
-  if (!p) { abort(); }
-  size_t u = malloc_usable_size(p);
-  memset(p, g_fill, u);
-  g_heap_bytes += long(u); ++g_heap_blocks;
-  return p;
+  unsigned char* raw = (unsigned char*)malloc(n + 16);
+  if (!raw) { abort(); }
+  ((size_t*)raw)[0] = n; ((size_t*)raw)[1] = g_in_lib ? 1 : 0;
+  memset(raw + 16, g_fill, n);
+  if (g_in_lib) { g_heap_bytes += long(n); ++g_heap_blocks; }
+  return raw + 16;
 }
 static void drv_free(void* p)
 {
   if (!p) return;
-  size_t u = malloc_usable_size(p);
-  g_heap_bytes -= long(u); --g_heap_blocks;
-  memset(p, 0xDD, u);
-  free(p);
+  unsigned char* raw = (unsigned char*)p - 16;
+  size_t n = ((size_t*)raw)[0];
+  if (((size_t*)raw)[1]) { g_heap_bytes -= long(n); --g_heap_blocks; }
+  memset(raw + 16, 0xDD, n);
+  free(raw);
 }
 void* operator new(size_t n)   { return drv_alloc(n); }
 void* operator new[](size_t n) { return drv_alloc(n); }
@@ -82,6 +87,12 @@ template <typename Scalar> Scalar cb_fn(Scalar T)
 }
 
 struct Args { long double s[4]; int i; };
+
+#ifndef DRV_ALLOC
+static bool g_in_lib = false;
+#endif
+struct InLib { InLib() { g_in_lib = true; } ~InLib() { g_in_lib = false; } };
+template <class F> auto lib(F f) -> decltype(f()) { InLib guard; return f(); }
 
 #include "dispatch_gen.h"
 
@@ -314,70 +325,70 @@ static void do_call(const std::vector<std::string>& f, bool capi)
   const std::string& op = f[0];
   std::string extra; bool parse_l = false, parse_p = false, parse_dp = false, parse_dv = false, parse_w = false;
   if (op == "init") {
-    int r = capi ? masa_init(f[3].c_str(), f[4].c_str()) : MASA::masa_init<Scalar>(f[3], f[4]);
+    int r = lib([&]{ return capi ? masa_init(f[3].c_str(), f[4].c_str()) : MASA::masa_init<Scalar>(f[3], f[4]); });
     extra = "\"ret\":" + std::to_string(r);
   } else if (op == "select") {
-    int r = capi ? masa_select_mms(f[3].c_str()) : MASA::masa_select_mms<Scalar>(f[3]);
+    int r = lib([&]{ return capi ? masa_select_mms(f[3].c_str()) : MASA::masa_select_mms<Scalar>(f[3]); });
     extra = "\"ret\":" + std::to_string(r);
   } else if (op == "list") {
-    int r = capi ? masa_list_mms() : MASA::masa_list_mms<Scalar>();
+    int r = lib([&]{ return capi ? masa_list_mms() : MASA::masa_list_mms<Scalar>(); });
     extra = "\"ret\":" + std::to_string(r); parse_l = true;
   } else if (op == "printid") {
-    int r = MASA::masa_printid<Scalar>();
+    int r = lib([&]{ return MASA::masa_printid<Scalar>(); });
     extra = "\"ret\":" + std::to_string(r); parse_p = true;
   } else if (op == "setp") {
     Scalar v = Scalar(num(f[4]));
-    if (capi) masa_set_param(f[3].c_str(), double(v)); else MASA::masa_set_param<Scalar>(f[3], v);
+    lib([&]{ if (capi) masa_set_param(f[3].c_str(), double(v)); else MASA::masa_set_param<Scalar>(f[3], v); });
   } else if (op == "getp") {
-    Scalar r = capi ? Scalar(masa_get_param(f[3].c_str())) : MASA::masa_get_param<Scalar>(f[3]);
+    Scalar r = lib([&]{ return capi ? Scalar(masa_get_param(f[3].c_str())) : MASA::masa_get_param<Scalar>(f[3]); });
     extra = "\"ret\":" + jstr(hexs<Scalar>(r)) + ",\"dec\":" + jstr(decs<Scalar>(r));
   } else if (op == "initp") {
-    int r = capi ? masa_init_param() : MASA::masa_init_param<Scalar>();
+    int r = lib([&]{ return capi ? masa_init_param() : MASA::masa_init_param<Scalar>(); });
     extra = "\"ret\":" + std::to_string(r);
   } else if (op == "purge") {
-    int r = capi ? masa_purge_default_param() : MASA::masa_purge_default_param<Scalar>();
+    int r = lib([&]{ return capi ? masa_purge_default_param() : MASA::masa_purge_default_param<Scalar>(); });
     extra = "\"ret\":" + std::to_string(r);
   } else if (op == "sanity") {
-    int r = capi ? masa_sanity_check() : MASA::masa_sanity_check<Scalar>();
+    int r = lib([&]{ return capi ? masa_sanity_check() : MASA::masa_sanity_check<Scalar>(); });
     extra = "\"ret\":" + std::to_string(r); parse_w = true;
   } else if (op == "dispp") {
-    int r = capi ? masa_display_param() : MASA::masa_display_param<Scalar>();
+    int r = lib([&]{ return capi ? masa_display_param() : MASA::masa_display_param<Scalar>(); });
     extra = "\"ret\":" + std::to_string(r); parse_dp = true;
   } else if (op == "dispv") {
-    int r = capi ? masa_display_array() : MASA::masa_display_vec<Scalar>();
+    int r = lib([&]{ return capi ? masa_display_array() : MASA::masa_display_vec<Scalar>(); });
     extra = "\"ret\":" + std::to_string(r); parse_dv = true;
   } else if (op == "name") {
     if (capi) {
       char buf[256]; memset(buf, 0, sizeof buf); strcpy(buf, "?unset?");
-      int r = masa_get_name(buf); buf[255] = 0;
+      int r = lib([&]{ return masa_get_name(buf); }); buf[255] = 0;
       extra = "\"ret\":" + std::to_string(r) + ",\"v\":" + jstr(buf);
     } else {
-      std::string s = "?unset?"; int r = MASA::masa_get_name<Scalar>(&s);
+      std::string s = "?unset?"; int r = lib([&]{ return MASA::masa_get_name<Scalar>(&s); });
       extra = "\"ret\":" + std::to_string(r) + ",\"v\":" + jstr(s);
     }
   } else if (op == "dim") {
-    int d = -777; int r = capi ? masa_get_dimension(&d) : MASA::masa_get_dimension<Scalar>(&d);
+    int d = -777; int r = lib([&]{ return capi ? masa_get_dimension(&d) : MASA::masa_get_dimension<Scalar>(&d); });
     extra = "\"ret\":" + std::to_string(r) + ",\"v\":" + std::to_string(d);
   } else if (op == "setv") {
     int n = atoi(f[4].c_str());
     if (capi) {
       std::vector<double> a(size_t(n) + 1, 0.0);
       for (int i = 0; i < n; ++i) a[size_t(i)] = double(num(f[5 + size_t(i)]));
-      masa_set_array(f[3].c_str(), &n, &a[0]);
+      lib([&]{ masa_set_array(f[3].c_str(), &n, &a[0]); });
     } else {
       std::vector<Scalar> v; for (int i = 0; i < n; ++i) v.push_back(Scalar(num(f[5 + size_t(i)])));
-      MASA::masa_set_vec<Scalar>(f[3], v);
+      lib([&]{ MASA::masa_set_vec<Scalar>(f[3], v); });
     }
   } else if (op == "getv") {
     std::string vj = "[";
     if (capi) {
       const int cap = 64; std::vector<double> a(cap, -7777.0); int n = -7;
-      int r = masa_get_array(f[3].c_str(), &n, &a[0]);
+      int r = lib([&]{ return masa_get_array(f[3].c_str(), &n, &a[0]); });
       for (int i = 0; i < n && i < cap; ++i) vj += (i ? "," : "") + jstr(hexd(a[size_t(i)]));
       extra = "\"ret\":" + std::to_string(r) + ",\"n\":" + std::to_string(n) + ",\"v\":" + vj + "]";
     } else {
       std::vector<Scalar> v; v.push_back(Scalar(-7777)); v.push_back(Scalar(-7777)); v.push_back(Scalar(-7777));
-      int r = MASA::masa_get_vec<Scalar>(f[3], v);
+      int r = lib([&]{ return MASA::masa_get_vec<Scalar>(f[3], v); });
       for (size_t i = 0; i < v.size(); ++i) vj += (i ? "," : "") + jstr(hexs<Scalar>(v[i]));
       extra = "\"ret\":" + std::to_string(r) + ",\"n\":" + std::to_string(v.size()) + ",\"v\":" + vj + "]";
     }
@@ -399,11 +410,11 @@ static void do_call(const std::vector<std::string>& f, bool capi)
       std::string cname;
       for (size_t q = k; q < f.size(); ++q) if (f[q].compare(0, 5, "pair:") != 0) { cname = f[q]; break; }
       for (int i = 0; i < c_table_n; ++i)
-        if (fn == c_table[i].fn && sig == c_table[i].sig && (cname.empty() || cname == c_table[i].cname)) { r = Scalar(c_table[i].call(a)); found = true; break; }
+        if (fn == c_table[i].fn && sig == c_table[i].sig && (cname.empty() || cname == c_table[i].cname)) { r = lib([&]{ return Scalar(c_table[i].call(a)); }); found = true; break; }
     } else {
       int n; const CxxEval<Scalar>* T = cxx_table<Scalar>(&n);
       for (int i = 0; i < n; ++i)
-        if (fn == T[i].fn && sig == T[i].sig) { r = T[i].call(a); found = true; break; }
+        if (fn == T[i].fn && sig == T[i].sig) { r = lib([&]{ return T[i].call(a); }); found = true; break; }
     }
     if (!found) { finish("\"skip\":true", "nodispatch"); return; }
     extra = "\"ret\":" + jstr(hexs<Scalar>(r)) + ",\"dec\":" + jstr(decs<Scalar>(r));
